@@ -650,6 +650,18 @@ impl Ws {
     /// PytestLookup: the definition pytest injects for `name` requested from `file`.
     /// `exclude` = the requesting fixture itself when it requests its own name.
     pub fn lookup(&self, file: usize, name: &str, exclude: Option<DefId>) -> Option<DefId> {
+        // a plugin module is not part of the conftest hierarchy, wherever its file lies: the fixture its
+        // override requests can only come from further out (third-party)
+        if exclude.is_some() && self.files[file].plugin && !self.files[file].is_third_party() {
+            for (fi, f) in self.files.iter().enumerate() {
+                if f.is_third_party() {
+                    if let Some(d) = self.own_defs(fi, name).into_iter().next_back() {
+                        return Some(d);
+                    }
+                }
+            }
+            return None;
+        }
         // 1. same file, last definition wins
         if let Some(d) = self
             .own_defs(file, name)
